@@ -134,6 +134,43 @@ def to_dist(rs):
         d["inadequate_schedule"] += not (m in ps and all(a < b for a, b in zip(ps, ps[1:])))
     return d
 
+def e2e_nontrivial(r):
+    return r["input"].count(";") >= 3
+
+def e2e_dist(rs):
+    d = {"scenarios": 0, "requests": 0, "pool_on": 0, "tls": 0, "buffer": {}, "http2_requests": 0, "http1_requests": 0, "with_request_body": 0,
+         "request_body_streamed_unknown_length": 0, "large_body_over_8k": 0, "cancellable_requests": 0, "multi_origin_scenarios": 0,
+         "multi_round_scenarios": 0, "outcomes": {}, "server_side": {}}
+    for r in rs:
+        parts = [p.split() for p in r["input"].split(" ; ")]
+        hd = parts[0]
+        d["scenarios"] += 1
+        d["pool_on"] += hd[2] == "1"
+        d["tls"] += hd[3] == "1"
+        d["buffer"][hd[1]] = d["buffer"].get(hd[1], 0) + 1
+        origins, rounds = set(), set()
+        for q in parts[1:]:
+            if len(q) != 15:
+                continue
+            d["requests"] += 1
+            d["http2_requests" if q[1] == "2" else "http1_requests"] += 1
+            d["with_request_body"] += q[6] != "0"
+            d["request_body_streamed_unknown_length"] += q[6] != "0" and q[8] == "0"
+            d["large_body_over_8k"] += int(q[6]) > 8192 or int(q[10]) > 8192
+            d["cancellable_requests"] += q[14] != "-"
+            origins.add(q[2]); rounds.add(int(q[13]) // 500)
+        d["multi_origin_scenarios"] += len(origins) > 1
+        d["multi_round_scenarios"] += len(rounds) > 1
+        for o in r["obs"].split():
+            try:
+                oc, n, f = o.split("=", 1)[1].split("/")
+            except ValueError:
+                continue
+            oc = oc.split(":")[0]
+            d["outcomes"][oc] = d["outcomes"].get(oc, 0) + 1
+            d["server_side"][f.split(":")[0]] = d["server_side"].get(f.split(":")[0], 0) + 1
+    return d
+
 def np_nontrivial(r):
     o = r["obs"].split()
     return bool(o) and o[0] != "bad-request"
@@ -402,6 +439,30 @@ PROPS = {
                     "kernel sockets may deliver short reads: compared with the FIFO specification only",
                     "memory safety of the unsafe ReadBuf bookkeeping is not modelled (only byte counts and contents)",
                     "TLS streams (rustls) are exercised by the C12 stream, not here"],
+    },
+    "C01": {
+        "props_module": "HdModel.Props.C01",
+        "class_prefix": ["C01/"],
+        "theorems": ["Hd.E2E.C01_no_crosstalk", "Hd.E2E.C01_server_sees_what_was_sent", "Hd.E2E.C01_response_identity",
+                     "Hd.E2E.inv_step", "Hd.E2E.inv_run", "Hd.E2E.C01_busy_handout_crosstalks"],
+        "streams": [
+            {"name": "e2e", "quick": 1500, "thorough": 100000, "sep": ";", "batch": 2000,
+             "nontrivial": e2e_nontrivial, "distribution": e2e_dist},
+        ],
+        "rule": "scenarios of 2-10 concurrent requests through the real Client service (Client::builder, pool on/off, custom streaming "
+                "request body type) over in-memory duplex connections with buffer 64 B - 64 KiB to the real hyperdriver Server (auto "
+                "HTTP/1+HTTP/2; 1 in 5 behind TLS with ALPN), virtual time: per request a unique id in path, header and body pattern, "
+                "HTTP/1.1 or HTTP/2, 1-3 origins (pool keys), GET/POST/PUT/DELETE/HEAD, path and query filler, request body 0-70 KB in "
+                "chunks of 1 B - 100 KB with or without a declared length (every third request pauses between chunks), handler delay "
+                "0-100 ms, response status from a 7-entry table, response headers, response body 0-70 KB streamed in chunks, start time "
+                "in 1-3 rounds 500 ms apart (later rounds find pooled connections), 1 in 5 requests dropped by the caller 0-120 ms after "
+                "it starts. The handler checks id/method/path/query/headers/origin/body against each other; the client checks status, "
+                "id, origin echo, header, request-body digest echo and the complete response body. non-trivial = at least 3 requests",
+        "assumes": ["hyper: HTTP/1 and HTTP/2 framing, one exchange at a time per HTTP/1 connection, stream identifiers on HTTP/2 "
+                    "(the model's connection rules); GET/HEAD bodies are only sent with a declared length",
+                    "the model is message-level: byte-level integrity of streams is C08/C18, header rewriting C13",
+                    "eligibility of a pooled HTTP/1 connection (not coupled to another request) is the pool's guarantee, C02",
+                    "upgraded connections and real sockets are not in the e2e stream"],
     },
     "C12": {
         "props_module": "HdModel.Props.C12",
